@@ -12,7 +12,7 @@ if 'baseline with the change: PASS' not in res or 'demo on clean worktree:   PAS
 os.makedirs(dst, exist_ok=True)
 shutil.copy(os.path.join(src, 'patch.diff'), dst)
 if os.path.isdir(os.path.join(dst, 'demo')): shutil.rmtree(os.path.join(dst, 'demo'))
-shutil.copytree(os.path.join(src, 'demo'), os.path.join(dst, 'demo'), ignore=shutil.ignore_patterns('go.sum', '*.exe'))
+shutil.copytree(os.path.join(src, 'demo'), os.path.join(dst, 'demo'), ignore=shutil.ignore_patterns('*.exe'))
 meta = json.load(open(os.path.join(src, 'meta.json')))
 old = {}
 if os.path.exists(os.path.join(dst, 'meta.json')):
